@@ -92,12 +92,13 @@ type Recorder struct {
 	Calls     []Call
 	Hooks     []HookCall
 	preActive bool
+	preIdx    int
 	inj       *Injector
 }
 
 func (r *Recorder) phase(ctx context.Context) (phase, txh, bh string, ok bool) {
 	if r.preActive {
-		return "pre", "", "", true
+		return "pre", fmt.Sprintf("pre:%d", r.preIdx), "", true
 	}
 	sctx := sdk.UnwrapSDKContext(ctx)
 	if sctx.ExecMode() != sdk.ExecModeFinalize {
@@ -262,6 +263,11 @@ type Node struct {
 	NListen int
 	Listen  []*Listener
 	Trace   *traceBuf
+	// Fresh: InitChain ran and nothing is committed yet; the genesis state lives only in
+	// BaseApp's finalize-block state, which the next FinalizeBlock reuses.
+	Fresh   bool
+	Tainted string // C15: set when the import already differed from the exporter in a recorded way
+	JoinedAt int
 }
 
 func appOpts() simtestutil.AppOptionsMap {
@@ -403,6 +409,7 @@ func (n *Node) initChain(state []byte, initialHeight int64, genesisNs int64) err
 	}
 	n.Height = initialHeight - 1
 	n.LastT = genesisNs
+	n.Fresh = true
 	// first block: empty, commits genesis
 	_, err = n.RunBlock(genesisNs+1, nil, nil)
 	return err
@@ -475,6 +482,7 @@ func (n *Node) Commit(timeNs int64) error {
 	}
 	n.Height++
 	n.LastT = timeNs
+	n.Fresh = false
 	return nil
 }
 
@@ -536,6 +544,9 @@ func (n *Node) Fork(name string) (*Node, error) {
 
 // ReadCtx: a context over the last committed state.
 func (n *Node) ReadCtx() sdk.Context {
+	if n.Fresh {
+		return n.App.BaseApp.NewContextLegacy(false, cmtproto.Header{Height: n.Height + 1, Time: time.Unix(0, n.LastT).UTC(), ChainID: ChainID})
+	}
 	return n.App.BaseApp.NewUncachedContext(false, cmtproto.Header{Height: n.Height, Time: time.Unix(0, n.LastT).UTC(), ChainID: ChainID})
 }
 
@@ -582,11 +593,17 @@ func (n *Node) govAuthority() string {
 
 // ApplyPre executes fn on a cache of the uncommitted root store and writes it
 // back only on success, like a message of another module would.
-func (n *Node) ApplyPre(fn func(ctx sdk.Context) error) (err error) {
-	base := n.App.BaseApp.NewUncachedContext(false, cmtproto.Header{Height: n.Height + 1, Time: time.Unix(0, n.LastT).UTC(), ChainID: ChainID})
+func (n *Node) ApplyPre(idx int, fn func(ctx sdk.Context) error) (err error) {
+	var base sdk.Context
+	if n.Fresh {
+		base = n.App.BaseApp.NewContextLegacy(false, cmtproto.Header{Height: n.Height + 1, Time: time.Unix(0, n.LastT).UTC(), ChainID: ChainID})
+	} else {
+		base = n.App.BaseApp.NewUncachedContext(false, cmtproto.Header{Height: n.Height + 1, Time: time.Unix(0, n.LastT).UTC(), ChainID: ChainID})
+	}
 	cctx, write := base.CacheContext()
 	n.Rec.mu.Lock()
 	n.Rec.preActive = true
+	n.Rec.preIdx = idx
 	n.Rec.mu.Unlock()
 	defer func() {
 		n.Rec.mu.Lock()
